@@ -10,13 +10,13 @@ Init == layers = <<>> /\ history = <<>>
 Add(k, p) == /\ Len(layers) < MaxLen
              /\ layers' = Append(layers, [kind |-> k, payload |-> p])
              /\ history' = Append(history, layers)
-Next == \E k \in Kinds, p \in Payloads : Add(k, p)
+Next == \E k \in LayerKinds, p \in Payloads : Add(k, p)
 AppendOnly == \A i \in DOMAIN history : Len(history[i]) <= Len(layers) /\ SubSeq(layers, 1, Len(history[i])) = history[i]
-TypedReads == \A k \in Kinds, i \in DOMAIN layers :
+TypedReads == \A k \in LayerKinds, i \in DOMAIN layers :
                  GetAsOK(layers, Bytes, k, Bytes(layers[i])) <=> (\E j \in DOMAIN layers : Bytes(layers[j]) = Bytes(layers[i]) /\ layers[j].kind = k)
 WrongKindFails == \A i \in DOMAIN layers : layers[i].payload # "empty" =>
-                    \A k \in Kinds \ {layers[i].kind} : ~GetAsOK(layers, Bytes, k, Bytes(layers[i]))
-UnknownFails == \A k \in Kinds : ~GetAsOK(layers, Bytes, k, "no-such-digest")
-ByKindInOrder == \A k \in Kinds : LET s == LayersOfKind(layers, k) IN \A a, b \in DOMAIN s : a < b =>
+                    \A k \in LayerKinds \ {layers[i].kind} : ~GetAsOK(layers, Bytes, k, Bytes(layers[i]))
+UnknownFails == \A k \in LayerKinds : ~GetAsOK(layers, Bytes, k, "no-such-digest")
+ByKindInOrder == \A k \in LayerKinds : LET s == LayersOfKind(layers, k) IN \A a, b \in DOMAIN s : a < b =>
                     \E i, j \in DOMAIN layers : i < j /\ layers[i] = s[a] /\ layers[j] = s[b]
 =============================================================================
